@@ -4,5 +4,6 @@ package engines
 import (
 	_ "verif/engines/coordpure"
 	_ "verif/engines/kvmodel"
+	_ "verif/engines/kvorder"
 	_ "verif/engines/walmodel"
 )
